@@ -19,6 +19,28 @@ Definition known_c07 (bytes : list byte) (st : vstate) (p : list bool) : bool :=
   existsb (fun b => existsb (N.eqb b) [8; 9; 11; 26]) (executed bytes (efuel bytes) p e_init)
   || negb (match sto_sym st with [] => true | _ => false end).
 
+(* K5: the code ends in a PUSH whose immediates run past the end, and the concrete path executes it (the
+   disassembler turns such a PUSH into INVALID, the EVM pushes the zero-padded word and stops). *)
+Fixpoint truncated_tail (fuel : nat) (bytes : list byte) (pc : N) : bool :=
+  match fuel with
+  | O => false
+  | S f =>
+      match nth_error bytes (N.to_nat pc) with
+      | None => false
+      | Some b =>
+          if (0x60 <=? b) && (b <=? 0x7f) then
+            let n := b - 0x5f in
+            if N.of_nat (length bytes) <? pc + 1 + n then true else truncated_tail f bytes (pc + 1 + n)
+          else truncated_tail f bytes (pc + 1)
+      end
+  end.
+Definition known5_c07 (bytes : list byte) (p : list bool) : bool :=
+  truncated_tail (S (length bytes)) bytes 0
+  && match rev (executed bytes (efuel bytes) p e_init) with
+     | b :: _ => (0x60 <=? b) && (b <=? 0x7f)
+     | [] => false
+     end.
+
 Fixpoint first_nonzero (l : list N) : N := match l with [] => 0 | 0 :: r => first_nonzero r | x :: _ => x end.
 
 Definition c07_code (c : vcase) : N :=
@@ -29,7 +51,8 @@ Definition c07_code (c : vcase) : N :=
       if Nat.eqb (length states) (length paths) then
         first_nonzero (map (fun sp => match state_vs_path bytes (fst (fst sp)) (snd sp) with
                                       | 0 => 0
-                                      | n => if known_c07 bytes (fst (fst sp)) (snd sp) then 60 else n end)
+                                      | n => if known_c07 bytes (fst (fst sp)) (snd sp) then 60
+                                             else if known5_c07 bytes (snd sp) then 62 else n end)
                            (combine states paths))
       else
         (* the implementation explored a different set of paths than the model: every state must still
@@ -120,3 +143,57 @@ Definition c08_code (c : vcase) : N :=
 Definition check_c08 (c : vcase) : N := match c08_code c with 0 => corr_code c | n => n end.
 Definition c08_explored (c : vcase) : N :=
   match explore (c_code c) (64 * length (c_code c) + 64)%nat [e_init] [] with Some r => 1 + N.of_nat (length r) | None => 0 end.
+
+(* ---- C17 against the reference: a bad jump the concrete EVM can reach must surface in strict mode ---- *)
+Definition is_fault (r : eres) : bool := match r with EFault _ => true | _ => false end.
+
+(* Some true: exploring both outcomes of every JUMPI, the reference EVM reaches a JUMP / taken JUMPI with enough
+   operands that faults (bad destination); None: budget exhausted (loops) or outside the oracle *)
+Fixpoint bad_jump_reachable (code : list byte) (fuel : nat) (work : list estate) : option bool :=
+  match fuel with
+  | O => match work with [] => Some false | _ => None end
+  | S f =>
+      match work with
+      | [] => Some false
+      | s :: rest =>
+          match byte_at code (e_pc s) with
+          | None => bad_jump_reachable code f rest
+          | Some b =>
+              let r1 := estep code false s in
+              if is_beyond r1 then None
+              else if b =? 86 then
+                if is_fault r1 && (1 <=? N.of_nat (length (e_stack s))) then Some true
+                else bad_jump_reachable code f (succs r1 ++ rest)
+              else if b =? 87 then
+                let r2 := estep code true s in
+                if is_beyond r2 then None
+                else if is_fault r2 && (2 <=? N.of_nat (length (e_stack s))) then Some true
+                else bad_jump_reachable code f (succs r2 ++ succs r1 ++ rest)
+              else bad_jump_reachable code f (succs r1 ++ rest)
+          end
+      end
+  end.
+
+Definition generous (l : limits) : bool :=
+  (30000000 <=? gas_limit l) && (10 <=? iter_limit l) && (50 <=? fork_limit l).
+
+(* 38: the reference reaches a bad jump, yet strict mode reported no error at all;
+   39: permissive mode's analysis differs from strict although no path has a bad jump and strict succeeded -- covered by 36 *)
+Definition c17_ref_code (c : c17case) : N :=
+  match k_strict c with
+  | XRun ok1 _ _ _ _ _ _ =>
+      if ok1 && generous (k_lim c) then
+        match bad_jump_reachable (k_code c) (64 * length (k_code c) + 64)%nat [e_init] with
+        | Some true => 38
+        | _ => 0
+        end
+      else 0
+  | _ => 0
+  end.
+
+Definition check_c17r (c : c17case) : N := match c17_ref_code c with 0 => check_c17 c | n => n end.
+Definition c17_ref_decided (c : c17case) : N :=
+  if generous (k_lim c) then
+    match bad_jump_reachable (k_code c) (64 * length (k_code c) + 64)%nat [e_init] with
+    | Some true => 2 | Some false => 1 | None => 0 end
+  else 0.
